@@ -425,6 +425,8 @@ maildir_stdin(struct maildir *md, const struct environment *env)
 	if (pathjoin(md->md_root, sizeof(md->md_root), env->ev_tmpdir,
 	    "mdsort-XXXXXXXX") == NULL) {
 		warnc(ENAMETOOLONG, "%s", __func__);
+		/* Prevent maildir_close() from removing the truncated path. */
+		md->md_root[0] = '\0';
 		return 1;
 	}
 	if (mkdtemp(md->md_root) == NULL) {
